@@ -19,7 +19,10 @@ RULE = (
     'serialise/parse round trip), in a style rule and consistently inside @font-face, and for every validation flag; '
     '(2) agreement with a structural reference for the CSS 2.1 grammar (valid => valid always; invalid => invalid for '
     'properties defined by one profile only); (3) unknown names are never valid; (4) declaration block / rule / sheet '
-    'validity is the conjunction of their declarations; (5) validate on/off gives identical content. Non-trivial: the '
+    'validity is the conjunction of ALL their declarations (repeated names, declarations nested in @media / @page / margin boxes, '
+    '@font-face in its own context); (5) validate on/off gives identical content. Values include near misses outside ASCII (Kelvin '
+    'sign for k, long s for s, Arabic-Indic and full-width digits, NBSP) and numbers that only look integral after rounding. expect: '
+    'zero lengths / integral floats where only a number / integer is allowed (listed finding). Non-trivial: the '
     'value is valid in one context or spelling class and a near miss exists, or has >= 2 components; distinct by (name, '
     'canonical value).'
 )
@@ -70,6 +73,8 @@ SPEC.update({
     'color': ([], ('color',)), 'background-color': (['transparent'], ('color',)),
     'border-top-color': (['transparent'], ('color',)), 'border-right-color': (['transparent'], ('color',)),
     'border-bottom-color': (['transparent'], ('color',)), 'border-left-color': (['transparent'], ('color',)),
+    'min-width': ([], ('length', 'percentage')), 'min-height': ([], ('length', 'percentage')),
+    'max-width': (['none'], ('length', 'percentage')), 'max-height': (['none'], ('length', 'percentage')),
     'outline-color': (['invert'], ('color',)), 'background-image': (['none'], ('uri',)), 'list-style-image': (['none'], ('uri',)),
 })
 # (value text, classes it belongs to)
@@ -80,7 +85,19 @@ VALUES = [
     ('red', {'color'}), ('#fff', {'color'}), ('#a1b2c3', {'color'}), ('rgb(1, 2, 3)', {'color'}), ('rgb(10%, 20%, 30%)', {'color'}),
     ('url(x.png)', {'uri'}), ('url("a b.png")', {'uri'}), ('"x"', {'string'}), ('1px 2px', {'two'}),
     ('1', {'number', 'integer'}), ('1deg', {'angle'}), ('1s', {'time'}), ('px', {'ident'}), ('1 px', {'two'}),
+    # near misses outside ASCII: never a keyword, number or unit
+    ('\u0663', {'nonascii'}), ('\uff11', {'nonascii'}), ('\u0661\u0662px', {'nonascii'}), ('1\u00a0px', {'nonascii'}), ('1p\u212a', {'nonascii'}),
+    # numbers that only look integral after rounding to six decimals keep their class
+    ('1.0000001', {'number'}), ('2.9999999', {'number'}), ('0.0000001px', {'length'}),
 ]
+NEAR = {'k': '\u212a', 's': '\u017f', 'K': '\u212a', 'S': '\u017f'}
+
+
+def near_miss(word):
+    for i, ch in enumerate(word):
+        if ch in NEAR:
+            return word[:i] + NEAR[ch] + word[i + 1:]
+    return None
 ALL_KEYWORDS = sorted({k for ks, _ in SPEC.values() for k in ks} | {'inherit', 'nonsense', 'auto', 'none', 'normal'})
 
 
@@ -106,6 +123,9 @@ def pair(draw):
         value, classes = draw(st.sampled_from(SPEC[name][0])), None
     elif draw(st.integers(0, 2)) == 0:
         value, classes = draw(st.sampled_from(ALL_KEYWORDS)), None
+        if draw(st.integers(0, 5)) == 0 and near_miss(value):
+            # Kelvin sign for k, long s for s: equal under Unicode case folding only
+            value, classes = near_miss(value), ['nonascii']
     else:
         value, classes = draw(st.sampled_from(VALUES))
     return {'name': name, 'value': value, 'classes': sorted(classes) if classes is not None else None,
@@ -278,8 +298,8 @@ def check_verdict(case, ctx):
 # --------------------------------------------------------------------------- conjunction and annotation-only
 
 block_strategy = st.fixed_dictionaries({
-    'decls': st.lists(st.tuples(st.sampled_from(sorted(SPEC) + ['x-unknown']), st.sampled_from([v for v, _ in VALUES] + ALL_KEYWORDS)),
-                      min_size=1, max_size=4, unique_by=lambda t: t[0]),
+    'decls': st.lists(st.tuples(st.sampled_from(sorted(SPEC)[:12] + sorted(SPEC) + ['x-unknown']), st.sampled_from([v for v, _ in VALUES] + ALL_KEYWORDS)),
+                      min_size=1, max_size=4),
     'rules': st.integers(1, 3),
     'seed': st.integers(0, 2 ** 30),
     'extra': st.lists(st.sampled_from(range(8)), max_size=2),
@@ -425,3 +445,31 @@ def check_defaults(case, ctx):
 
 
 SUBS.append(Sub('defaults', check_defaults, strategy=defaults_strategy, quick=400, thorough=20000, shards_quick=4))
+
+
+# --------------------------------------------------------------------------- the verdict judges the serialised value (listed finding)
+
+
+def expect_cases(tier):
+    for name, value in [('z-index', '0px'), ('orphans', '0cm'), ('pitch-range', '0em'), ('z-index', '1.0'), ('widows', '2.0'), ('font-weight', '0400.0')]:
+        yield {'name': name, 'value': value, 'expected': False}
+    for name, value in [('z-index', '0'), ('z-index', '1'), ('width', '0px'), ('line-height', '1.0')]:
+        yield {'name': name, 'value': value, 'expected': True}
+
+
+def check_expect(case, ctx):
+    saved = cssutils.log.raiseExceptions
+    cssutils.log.raiseExceptions = False
+    try:
+        with lib('parseStyle'):
+            p = cssutils.parseStyle('%s: %s' % (case['name'], case['value'])).getProperty(case['name'])
+        got = None if p is None else p.valid
+        ctx.case([case['name'], case['value']], True, case)
+        if got != case['expected']:
+            raise Violation('expect:serialised-value-judged', f'{case["name"]}: {case["value"]} reported {got}, CSS 2.1 says {case["expected"]} '
+                            f'(the verdict is computed from the serialised value {p.value!r})')
+    finally:
+        cssutils.log.raiseExceptions = saved
+
+
+SUBS.append(Sub('expect', check_expect, enumerate=expect_cases, shards_quick=1, shards_thorough=1))
